@@ -571,6 +571,96 @@ def solver_field_consts(ctx):
     return out
 
 
+def solver_search_fields(ctx):
+    """(fields of the solver that hold the backward search's result, fields that hold the final-state list): assigned in a
+    Solver method from a local whose only definitions are `reverse_dfs(...)` calls / from a parameter named like the finals."""
+    if "solver_search_fields" in ctx.cache:
+        return ctx.cache["solver_search_fields"]
+    reach_f, final_f = set(), set()
+    for m in ctx.prog.classes["Solver"].methods.values():
+        cfg_m = None
+        for st_ in walk_no_nested_defs(m.node):
+            val_ = getattr(st_, "value", None)
+            while isinstance(val_, ast.Call) and call_name(val_) in ("set", "frozenset", "list", "tuple", "sorted") and len(val_.args) == 1 and not val_.keywords:
+                val_ = val_.args[0]
+            if isinstance(st_, ast.Assign) and len(st_.targets) == 1 and isinstance(st_.targets[0], ast.Attribute) and attr_path(st_.targets[0]) \
+                    and attr_path(st_.targets[0]).startswith("self.") and isinstance(val_, ast.Name):
+                fld = st_.targets[0].attr
+                cfg_m = cfg_m or ctx.cfg(m)
+                defs = cfg_m.defs_reaching(st_, val_.id)
+                if defs and all(isinstance(d, ast.Assign) and isinstance(d.value, ast.Call) and call_name(d.value) == "reverse_dfs" for d in defs):
+                    reach_f.add(fld)
+                elif (not defs or all(isinstance(d, str) for d in defs)) and val_.id in m.params and "final" in val_.id:
+                    final_f.add(fld)
+    ctx.cache["solver_search_fields"] = (reach_f, final_f)
+    return reach_f, final_f
+
+
+def restorers(ctx):
+    """Node methods that only put fields back to what the constructor set them to (`reset`): every statement is
+    `self.F = <the expression the constructor assigns to self.F>`, or `self.next_states = list(self.S)` with S a snapshot of the
+    transition list taken in the constructor, or a call of another restorer.  {Func: set of restored fields}."""
+    if "restorers" in ctx.cache:
+        return ctx.cache["restorers"]
+    from . import kernels as K
+    out = {}
+    classes = set()
+    for c in K.role_classes(ctx).values():
+        classes.update(ctx.prog.mro(c))
+    norm = lambda e: ast.dump(e, annotate_fields=False)
+    for cn in sorted(classes):
+        cls = ctx.prog.classes.get(cn)
+        if cls is None:
+            continue
+        ctor_vals, snaps = {}, set()
+        for c2 in ctx.prog.mro(cn):
+            ini = ctx.prog.classes[c2].methods.get("__init__") if c2 in ctx.prog.classes else None
+            if ini is None:
+                continue
+            # `self.p = p`: later uses of the parameter p in the constructor are uses of the field
+            as_field = {st.value.id for st in walk_no_nested_defs(ini.node) if isinstance(st, ast.Assign) and isinstance(st.value, ast.Name) and st.value.id in ini.params
+                        and any(isinstance(t, ast.Attribute) and attr_path(t) == "self." + st.value.id for t in st.targets)}
+            rebound = {n_.id for n_ in walk_no_nested_defs(ini.node) if isinstance(n_, ast.Name) and isinstance(n_.ctx, ast.Store)}
+
+            class _P(ast.NodeTransformer):
+                def visit_Name(self, n_):
+                    if isinstance(n_.ctx, ast.Load) and n_.id in as_field and n_.id not in rebound:
+                        return ast.Attribute(value=ast.Name(id="self", ctx=ast.Load()), attr=n_.id, ctx=ast.Load())
+                    return n_
+            import copy as _copy
+            for st in walk_no_nested_defs(ini.node):
+                if isinstance(st, ast.Assign):
+                    for t in st.targets:
+                        if isinstance(t, ast.Attribute) and attr_path(t) == "self." + t.attr:
+                            ctor_vals.setdefault(t.attr, set()).add(norm(st.value))
+                            ctor_vals[t.attr].add(norm(_P().visit(_copy.deepcopy(st.value))))
+                            v = st.value
+                            if isinstance(v, ast.Call) and call_name(v) in ("tuple", "list") and len(v.args) == 1 and src(v.args[0]) in ("self.next_states", "next_states"):
+                                snaps.add(t.attr)
+        for m in cls.methods.values():
+            if m.name == "__init__":
+                continue
+            body = [b for b in m.node.body if not (isinstance(b, ast.Expr) and isinstance(b.value, ast.Constant))]
+            fields, ok = set(), bool(body)
+            for b in body:
+                if isinstance(b, ast.Assign) and len(b.targets) == 1 and isinstance(b.targets[0], ast.Attribute) and attr_path(b.targets[0]) == "self." + b.targets[0].attr:
+                    F = b.targets[0].attr
+                    v = b.value
+                    if norm(v) in ctor_vals.get(F, ()):
+                        fields.add(F)
+                        continue
+                    if F == "next_states" and isinstance(v, ast.Call) and call_name(v) == "list" and len(v.args) == 1 and isinstance(v.args[0], ast.Attribute) \
+                            and attr_path(v.args[0]) and attr_path(v.args[0]).startswith("self.") and v.args[0].attr in snaps:
+                        fields.add(F)
+                        continue
+                ok = False
+                break
+            if ok and fields:
+                out[m] = fields
+    ctx.cache["restorers"] = out
+    return out
+
+
 SWEPT_FIELDS = ("expected_rewards", "expected_rewards_min_reach", "expected_reach_min_rewards")
 
 
@@ -621,6 +711,9 @@ def rule_node_keeps_transitions(ctx, chk, rule):
     from . import kernels as K
     roles = K.role_classes(ctx)
     n = 0
+    classes_all = set()
+    for c_ in roles.values():
+        classes_all.update(ctx.prog.mro(c_))
     for cls in sorted(set(roles.values())):
         ctor = ctx.prog.resolve_method(cls, "__init__")
         if ctor is None:
@@ -630,6 +723,29 @@ def rule_node_keeps_transitions(ctx, chk, rule):
         if not stores:
             chk.undecided(rule, ctor.where(), "%s.__init__ does not store next_states" % cls)
             continue
+        # options of the constructor that no construction site sets (`drop_repeated_entries=False`) are at their defaults
+        from ..symx import subst as _subst, deep_simp as _deep_simp, C as _C, FALSE as _FALSE
+        unset = {}
+        passed_somewhere = set()
+        for g_ in ctx.prog.all_funcs(("tad.py",)):
+            for call_ in walk_no_nested_defs(g_.node):
+                if isinstance(call_, ast.Call) and (call_name(call_) in classes_all or (isinstance(call_.func, ast.Attribute) and call_.func.attr == "__init__")):
+                    forwarded = lambda a_, name_: isinstance(a_, ast.Name) and a_.id == name_ and name_ in g_.defaults      # handing one's own option on
+                    passed_somewhere |= {k.arg for k in call_.keywords if k.arg and not forwarded(k.value, k.arg)}
+                    cp_ = [q_ for q_ in ctor.params if q_ != "self"]
+                    for i_, a_ in enumerate(call_.args):
+                        if i_ >= 6 and i_ < len(cp_) and not forwarded(a_, cp_[i_]):
+                            passed_somewhere.add(cp_[i_])
+        for p_, d_ in ctor.defaults.items():
+            if p_ not in passed_somewhere and isinstance(d_, ast.Constant) and p_ != "is_final_node":
+                unset[("v", p_)] = _C(d_.value)
+        if unset:
+            def _fold(c_):
+                c_ = _subst(c_, lambda x: unset.get(x))
+                c_ = _subst(c_, lambda x: _C(bool(x[1][1])) if x[0] == "truthy" and x[1][0] == "c" else None)
+                return _deep_simp(c_)
+            stores = [(_fold(e[0]),) + tuple(e[1:]) for e in stores]
+        stores = [e for e in stores if e[0] != _FALSE] or stores
         cond, _, _, _, val = stores[-1]
         pname = [p for p in ctor.params if "next" in p]
         param = ("v", pname[0]) if pname else None
